@@ -243,6 +243,9 @@ func (f *Frame) builtin(st *State, x *ssa.Call, b *ssa.Builtin, c *ssa.CallCommo
 		}
 		return f.appendOp(st, x, s, arg(1))
 	case "delete":
+		if g := arg(0).Glob; g != "" {
+			f.lockCheck(st, &Loc{Kind: LGlobal, Root: "G|" + g, Path: " (map contents)"}, true, pos)
+		}
 		f.mapDelete(st, c.Args[0].Type(), arg(0).one(), arg(1).one(), pos)
 		return Val{T: rt}
 	case "panic":
@@ -275,6 +278,7 @@ func (f *Frame) contractCall(st *State, spec *FuncSpec, callee *ssa.Function, ar
 		env.params[p.Name()] = args[i]
 	}
 	cname := shortFn(fnDisplayName(callee))
+	f.holdsCheck(st, spec, cname, pos)
 	if recv := callee.Signature.Recv(); recv != nil && len(args) > 0 {
 		if _, ok := recv.Type().Underlying().(*types.Pointer); ok {
 			f.oblige(st, "SAFE", "nil receiver in call "+cname, pos, Ne(args[0].one(), Zero))
@@ -542,6 +546,7 @@ func (f *Frame) specOnlyCall(st *State, spec *FuncSpec, args []Val, sig *types.S
 			env.params[n] = args[i]
 		}
 	}
+	f.holdsCheck(st, spec, spec.Name, pos)
 	for _, r := range spec.Requires {
 		f.oblige(st, "PRE", "call "+spec.Name+" requires "+r.Text, pos, env.evalBool(r.Expr, env.pre, nil))
 	}
@@ -600,4 +605,15 @@ func (f *Frame) kindFacts(st *State, lo Term, mods *ModSet) {
 		return
 	}
 	vc.fact(Forall([]Term{r}, Imp(And(Le(lo, r), Lt(r, st.alloc)), Or(alts...)), []Term{Select(ty, r)}))
+}
+
+// holdsCheck: a callee whose contract says "holds L" must be called with L held.
+func (f *Frame) holdsCheck(st *State, spec *FuncSpec, cname string, pos token.Pos) {
+	for _, h := range spec.Holds {
+		held, ok := st.ghost["lock:"+h]
+		if !ok {
+			held = Zero
+		}
+		f.oblige(st, "LOCK", "call "+cname+" requires lock "+h+" held", pos, Ge(held, One))
+	}
 }
